@@ -76,7 +76,7 @@ def _gen_crafted(rng):
         for a in cands:
             msgs.append(["ready", a])
         if rng.random() < 0.2 and alive:
-            msgs.append(["ready", rng.choice(alive)])      # duplicate / non-candidate
+            msgs.append(["ready", rng.choice([a for a in alive if a not in leaving])])   # duplicate / non-candidate
         rng.shuffle(msgs)
         # outcome of the repair dcop: each orphan selected by 0, 1 or 2 of its candidates
         sel = {a: [] for a in cands}
@@ -88,9 +88,12 @@ def _gen_crafted(rng):
                 sel[a].append(c)
         dones = [["done", a, sel[a]] for a in cands]
         rng.shuffle(dones)
-        if rng.random() < 0.15:
-            dones.insert(rng.randrange(len(dones) + 1), ["done", rng.choice(alive), []])
+        others = [a for a in alive if a not in cands and a not in leaving]
+        if rng.random() < 0.15 and others:       # stray message from an agent that is no candidate
+            dones.insert(rng.randrange(len(dones) + 1), ["done", rng.choice(others), []])
         script += msgs + dones
+        if any(not any(c in cs for cs in sel.values()) for c in orphaned):
+            break      # a lost computation stays in _comps_state for ever: later statuses are KO
         for a in leaving:
             alive.remove(a)
         for a, cs in sel.items():
@@ -410,7 +413,7 @@ def _crafted_problems(case, o):
                 break
             status = statuses[si]
             si += 1
-            need = set(orphaned) | lost_before
+            need = set(orphaned)
             zero = sorted(c for c in need if len(sel.get(c, [])) == 0)
             multi = sorted(c for c in need if len(sel.get(c, [])) > 1)
             for c, ags in sel.items():
